@@ -10,6 +10,7 @@ import (
 	"errors"
 	"fmt"
 	"io"
+	"log/slog"
 	"math/rand"
 	"net"
 	"net/netip"
@@ -151,6 +152,8 @@ type markReq struct {
 	ip      netip.Addr
 	release chan struct{}
 	done    chan struct{}
+	// set before done is closed if the real call panicked
+	panicked string
 }
 
 type recList struct {
@@ -176,8 +179,15 @@ func (r *recList) MarkUsedByClientIP(e *list.Element, ip netip.Addr) {
 	req := &markReq{tok: r.reg.tokOf(e), ip: ip, release: make(chan struct{}), done: make(chan struct{})}
 	r.markCh <- req
 	<-req.release
+	defer func() {
+		if p := recover(); p != nil {
+			req.panicked = fmt.Sprint(p)
+			close(req.done)
+			panic(p)
+		}
+		close(req.done)
+	}()
 	r.inner.MarkUsedByClientIP(e, ip)
-	close(req.done)
 }
 
 func (r *recList) Update(l *list.List) { r.inner.Update(l) }
@@ -340,39 +350,72 @@ func (s *server) close() {
 	if s.tln != nil {
 		s.tln.Close()
 	}
-	s.wg.Wait()
+	// StreamServe waits for its handlers; one that is still parked (a crashed scenario) must not hold the driver
+	done := make(chan struct{})
+	go func() { s.wg.Wait(); close(done) }()
+	waitCh(done, 3*time.Second)
 }
 
+// acceptLoop: the repository's own accept loop (service.StreamServe), which recovers a panicking handler, logs
+// "Panic in TCP handler" and closes the connection.  The handle function records the panic on the connection's record
+// first (so that it is an OBSERVATION of this connection: its lookup crashed) and lets StreamServe deal with it.
 func (s *server) acceptLoop() {
 	defer s.wg.Done()
-	for {
-		c, err := s.ln.AcceptTCP()
-		if err != nil {
-			return
-		}
-		go func() {
-			rec := s.lookup(c.RemoteAddr().String())
-			// like service.StreamServe: a panic in the handler is recovered and the connection closed
-			defer func() {
-				if r := recover(); r != nil {
-					rec.mu.Lock()
-					if rec.authSt == "" {
-						rec.authSt = "PANIC"
-					}
-					if rec.closedSt == "" {
-						rec.closedSt = "PANIC"
-					}
-					rec.panicked = fmt.Sprint(r)
-					rec.mu.Unlock()
-					rec.authOnce.Do(func() { close(rec.authDone) })
-					rec.closeOnce.Do(func() { close(rec.closedDone) })
+	service.StreamServe(service.WrapStreamAcceptFunc(s.ln.AcceptTCP), func(ctx context.Context, c transport.StreamConn) {
+		rec := s.lookup(c.RemoteAddr().String())
+		defer func() {
+			if r := recover(); r != nil {
+				rec.mu.Lock()
+				if rec.authSt == "" {
+					rec.authSt = "PANIC"
 				}
-				c.Close()
-			}()
-			s.handler.Handle(s.ctx, c, &recMetrics{rec})
+				if rec.closedSt == "" {
+					rec.closedSt = "PANIC"
+				}
+				rec.panicked = fmt.Sprint(r)
+				rec.mu.Unlock()
+				rec.authOnce.Do(func() { close(rec.authDone) })
+				rec.closeOnce.Do(func() { close(rec.closedDone) })
+				panic(r)
+			}
 		}()
-	}
+		s.handler.Handle(s.ctx, c, &recMetrics{rec})
+	})
 }
+
+// panicLog: slog handler installed as the default logger; counts the "Panic in TCP handler" records of StreamServe
+type panicLog struct {
+	mu   sync.Mutex
+	n    int
+	last string
+}
+
+var panics = &panicLog{}
+
+func (p *panicLog) Enabled(context.Context, slog.Level) bool { return true }
+func (p *panicLog) Handle(_ context.Context, r slog.Record) error {
+	if strings.Contains(r.Message, "Panic in TCP handler") {
+		p.mu.Lock()
+		p.n++
+		r.Attrs(func(a slog.Attr) bool {
+			if a.Key == "err" {
+				p.last = a.Value.String()
+			}
+			return true
+		})
+		p.mu.Unlock()
+	}
+	return nil
+}
+func (p *panicLog) WithAttrs([]slog.Attr) slog.Handler { return p }
+func (p *panicLog) WithGroup(string) slog.Handler      { return p }
+func (p *panicLog) count() (int, string) {
+	p.mu.Lock()
+	defer p.mu.Unlock()
+	return p.n, p.last
+}
+
+func init() { slog.SetDefault(slog.New(panics)) }
 
 // lookup blocks until the client side has registered the connection (it does so right after Dial returned)
 func (s *server) lookup(addr string) *connRec {
